@@ -191,15 +191,27 @@ func Gen(t *rapid.T, b Bias) Case {
 		pos := rapid.IntRange(0, len(steps)).Draw(t, "cancelPos")
 		steps = insertStep(steps, pos, Step{Op: "cancel"})
 	}
+	partitioned := false
 	if b.AllowStop && len(targets) > 0 {
 		ns := rapid.IntRange(0, 2).Draw(t, "nstops")
+		// in a sixth of the cases with stops the nodes' hosts stop answering instead: the connections
+		// break and new attempts hang (for as long as the harness watches: gorums hands the back-off
+		// to grpc as the connect deadline, so it is made long). With a long back-off a call to a
+		// node that was stopped is, by design, answered only after one back-off period; such a case
+		// therefore has no plain stops.
+		partitioned = ns > 0 && rapid.IntRange(0, 5).Draw(t, "partition") == 0
 		for i := 0; i < ns; i++ {
 			s := rapid.SampledFrom(targets).Draw(t, fmt.Sprintf("stopNode%d", i))
 			pos := rapid.IntRange(0, len(steps)).Draw(t, fmt.Sprintf("stopPos%d", i))
-			steps = insertStep(steps, pos, Step{Op: "stop", Node: s})
+			op := "stop"
+			if partitioned {
+				op = "partition"
+				c.Mgr.BackoffMs = 30000
+			}
+			steps = insertStep(steps, pos, Step{Op: op, Node: s})
 		}
 	}
-	if b.AllowStop && len(targets) > 0 && rapid.IntRange(0, 3).Draw(t, "prestop") == 0 {
+	if b.AllowStop && !partitioned && len(targets) > 0 && rapid.IntRange(0, 3).Draw(t, "prestop") == 0 {
 		// servers stopped after the manager connected but before the call is issued
 		k := rapid.IntRange(1, len(targets)).Draw(t, "nprestop")
 		pp := rapid.Permutation(targets).Draw(t, "prestopPerm")
